@@ -314,11 +314,66 @@ func c01Neighbours(r *rt.Rec, rng *rand.Rand, n int) {
 	}
 }
 
+
+// c01Bulk: one AddTriples / RemoveTriples call with thousands of triples (sizes
+// at and around powers of two and round thousands): every triple of the batch
+// is stored (Exist, listing count), removing a batch removes exactly it, and
+// another graph of the same store is untouched.
+func c01Bulk(r *rt.Rec, rng *rand.Rand, which int) {
+	ctx := context.Background()
+	sizes := [][]int{{1000, 2000, 2001}, {1024, 2048, 3000}, {999, 4096, 5000}, {1, 4000, 1999 + rng.Intn(3)}}[which%4]
+	for _, n := range sizes {
+		st := memory.NewStore()
+		g, _ := st.NewGraph(ctx, "?g")
+		other, _ := st.NewGraph(ctx, "?other")
+		keep := gen.MustTriple(gen.VNodes[0], gen.MustImm("p"), triple.NewNodeObject(gen.VNodes[1]))
+		other.AddTriples(ctx, []*triple.Triple{keep})
+		ts := make([]*triple.Triple, n)
+		for i := range ts {
+			ts[i] = gen.MustTriple(gen.MustNode("/u", fmt.Sprintf("s%d", i%97)), gen.MustImm(fmt.Sprintf("p%d", i%13)), triple.NewLiteralObject(gen.MustLit(literal.Int64, int64(i))))
+		}
+		r.Begin(fmt.Sprintf("bulk AddTriples of %d triples", n))
+		r.Eval(1)
+		if err := g.AddTriples(ctx, ts); err != nil {
+			r.Violation("bulk/add-error", err.Error(), n)
+			continue
+		}
+		missing := 0
+		for _, t := range ts {
+			if ok, _ := g.Exist(ctx, t); !ok {
+				missing++
+			}
+		}
+		got, _ := listGraph(ctx, g)
+		if missing > 0 || len(got) != n {
+			r.Violation("bulk/add-incomplete", fmt.Sprintf("after one AddTriples call with %d triples, Exist misses %d of them and the listing holds %d", n, missing, len(got)), map[string]int{"batch": n, "missing": missing, "listed": len(got)})
+		}
+		// remove the second half in one call
+		half := ts[n/2:]
+		r.Begin(fmt.Sprintf("bulk RemoveTriples of %d of %d triples", len(half), n))
+		g.RemoveTriples(ctx, half)
+		left, _ := listGraph(ctx, g)
+		still := 0
+		for _, t := range half {
+			if ok, _ := g.Exist(ctx, t); ok {
+				still++
+			}
+		}
+		if still > 0 || len(left) != n-len(half) {
+			r.Violation("bulk/remove-incomplete", fmt.Sprintf("after one RemoveTriples call with %d of %d triples, %d of them still exist and the listing holds %d", len(half), n, still, len(left)), map[string]int{"batch": len(half), "still": still, "listed": len(left)})
+		}
+		if o, _ := listGraph(ctx, other); len(o) != 1 {
+			r.Violation("bulk/other-graph-changed", fmt.Sprintf("another graph of the store lists %d triples after the bulk operations, it held 1", len(o)), n)
+		}
+		r.NontrivialDistinct(1)
+	}
+}
+
 func init() {
 	register(&rt.Check{
 		ID:    "C01",
 		Level: "exploration",
-		Rule: "(a) three 4-triple universes (plain; differing only in predicate kind/anchor incl. 1ns and a respelled zone; differing only in literal type): every subset, reached by two operation paths, then every single AddTriples/RemoveTriples batch (all 16 subsets, duplicates, respelled, empty) — enumerated completely; (b) random histories of NewGraph/Graph/DeleteGraph/GraphNames/AddTriples/RemoveTriples over 3 names and a 12-triple universe, observed after every step (GraphNames, Graph ok/err, Exist of every universe triple, full listing as a multiset) against a map name->set model; (c) near-colliding value pairs; (d) neighbour pairs: triples differing in one component by a small change (one bit of an int64 / float64 over the whole range, adjacent floats, trailing byte of a text / blob / id, anchors 2^k ns apart, one rune of a node type or id), each through add a, Exist b, add b, list, remove b, Exist a in both directions; " +
+		Rule: "(a) three 4-triple universes (plain; differing only in predicate kind/anchor incl. 1ns and a respelled zone; differing only in literal type): every subset, reached by two operation paths, then every single AddTriples/RemoveTriples batch (all 16 subsets, duplicates, respelled, empty) — enumerated completely; (b) random histories of NewGraph/Graph/DeleteGraph/GraphNames/AddTriples/RemoveTriples over 3 names and a 12-triple universe, observed after every step (GraphNames, Graph ok/err, Exist of every universe triple, full listing as a multiset) against a map name->set model; (c) near-colliding value pairs; (e) bulk: one AddTriples / RemoveTriples call with 1000-5000 triples (round thousands, powers of two and their neighbours); (d) neighbour pairs: triples differing in one component by a small change (one bit of an int64 / float64 over the whole range, adjacent floats, trailing byte of a text / blob / id, anchors 2^k ns apart, one rune of a node type or id), each through add a, Exist b, add b, list, remove b, Exist a in both directions; " +
 			"non-trivial history = has a re-add, a remove of an absent triple, overlapping consecutive batches and touches >=2 graphs; distinct by op sequence + universe",
 		Assume: []string{"triple identity in the model is the accessor-based canonical triple (zone ignored)", "operations go through a fresh Graph() handle each time"},
 		Floor:  200,
@@ -330,6 +385,7 @@ func init() {
 			return []rt.Phase{
 				{Name: "small", N: 3, Exhaustive: true, Run: func(i int, r *rt.Rec) { c01Small(r, i) }},
 				{Name: "collisions", N: 1, Exhaustive: true, Run: func(i int, r *rt.Rec) { c01Collisions(r) }},
+				{Name: "bulk", N: 4, Run: func(i int, r *rt.Rec) { c01Bulk(r, gen.Rng(seed, "c01b", i), i) }},
 				{Name: "neighbours", N: 4, Run: func(i int, r *rt.Rec) { c01Neighbours(r, gen.Rng(seed, "c01n", i), nb) }},
 				{Name: "histories", N: 16, Run: func(i int, r *rt.Rec) { c01Histories(r, gen.Rng(seed, "c01h", i), n/16, steps, nil) }},
 			}
